@@ -8,6 +8,7 @@ import (
 	"path"
 	"sort"
 	"strings"
+	"sync"
 	"time"
 
 	"golang.org/x/mod/module"
@@ -32,16 +33,27 @@ type simFile struct {
 	stats    *zipIOStats
 }
 
+// zipIOStats is shared by all files of a run. Nothing says that the code under test touches the files
+// one at a time or on the calling goroutine, so the counters are guarded.
 type zipIOStats struct {
+	mu                   sync.Mutex
 	lstats, opens, reads int
 	faultsDelivered      map[string]int
 }
 
 func (s *zipIOStats) hit(k string) {
+	s.mu.Lock()
+	defer s.mu.Unlock()
 	if s.faultsDelivered == nil {
 		s.faultsDelivered = map[string]int{}
 	}
 	s.faultsDelivered[k]++
+}
+
+func (s *zipIOStats) count(n *int) {
+	s.mu.Lock()
+	*n++
+	s.mu.Unlock()
 }
 
 type simInfo struct {
@@ -59,7 +71,7 @@ func (i simInfo) Sys() interface{}   { return nil }
 
 func (f *simFile) Path() string { return f.path }
 func (f *simFile) Lstat() (os.FileInfo, error) {
-	f.stats.lstats++
+	f.stats.count(&f.stats.lstats)
 	if f.lstatErr != nil {
 		f.stats.hit("lstat-error")
 		return nil, f.lstatErr
@@ -76,7 +88,7 @@ type simReader struct {
 
 func (r *simReader) Read(p []byte) (int, error) {
 	f := r.f
-	f.stats.reads++
+	f.stats.count(&f.stats.reads)
 	total := int64(len(f.content))
 	if f.virtual {
 		total = f.size
@@ -117,7 +129,7 @@ func (r *simReader) Close() error { r.closed = true; return nil }
 var errSimIO = errors.New("simulated I/O error")
 
 func (f *simFile) Open() (io.ReadCloser, error) {
-	f.stats.opens++
+	f.stats.count(&f.stats.opens)
 	if f.openErr != nil {
 		f.stats.hit("open-error")
 		return nil, f.openErr
